@@ -245,21 +245,17 @@ def binary_irrev_cstr(t, k, r, p, fr, fp, fv, n=1, backend=None):
     x9 = fp * x2
     x10 = 4 * k * n
     x11 = fr * x10
-    x12 = be.exp(x8)
-    x13 = n * x12
+    # exp(-x8) multiplied into the sum (exp(x8) overflows for fv*t > 709):
+    x12 = be.exp(-x8)
     return (
         x0 * (-fv + x5 * x15) / 4,
         x0
         * (
-            fv * x13
-            + 8 * k * p
-            + r * x10
-            - x1 * x13 * x4 * x15
-            + x11 * x12
-            - x11
-            + x12 * x9
-            - x9
+            fv * n
+            + (8 * k * p + r * x10 - x11 - x9) * x12
+            - x1 * n * x4 * x15
+            + x11
+            + x9
         )
-        * be.exp(-x8)
         / 8,
     )
